@@ -380,15 +380,25 @@ def layout_position_bracket(F, fn):
                for e in after):
             continue
         n += 1
-        reads = [e[5] for e in p.events[:i_lp] if e[0] == "call" and len(e) > 5 and mir.call_matches(e[1], "Context::position")
-                 and e[2] and idiom_same(e[2][0], ctx)]
+        # a read counts when nothing between it and the layout attempt can have moved the position: no call that is handed
+        # the context other than the context's own getters and the state/span/layout setters (the lexer of this round moves
+        # it over white space; a position read before the lexer ran is where the PREVIOUS round started - seed C12-3)
+        QUIET = ("Context::position", "Context::span", "Context::state", "Context::layout_ahead", "Context::token_ahead",
+                 "Context::set_state", "Context::set_span", "Context::set_layout_ahead", "Context::location", "Context::range")
+        reads = []
+        for k_, e in enumerate(p.events[:i_lp]):
+            if e[0] == "call" and len(e) > 5 and mir.call_matches(e[1], "Context::position") and e[2] and idiom_same(e[2][0], ctx):
+                moved = any(x[0] == "call" and any(idiom_same(a_, ctx) for a_ in x[2]) and not any(mir.call_matches(x[1], q_) for q_ in QUIET)
+                            for x in p.events[k_ + 1:i_lp])
+                if not moved:
+                    reads.append(e[5])
         sets = [e for e in after if e[0] == "call" and mir.call_matches(e[1], "Context::set_position")
                 and e[2] and idiom_same(e[2][0], ctx)]
         if not sets:
             bad.append(("the position the layout parser reached before it failed stays in the context", p.end))
         elif not any(s[2][1] == r for s in sets for r in reads):
-            bad.append(("set_position after the layout parser is given %s, not the position read before the layout parser ran"
-                        % fmt(sets[0][2][1])[:60], p.end))
+            bad.append(("set_position after the layout parser is given %s, not a position read between this round's lexer call and "
+                        "the layout attempt" % fmt(sets[0][2][1])[:60], p.end))
     return n, bad
 
 
